@@ -29,8 +29,7 @@ def sticky_round(A, parts, members, prev, generation, limit_s=3.0):
 
 def _sticky_round(A, parts, members, prev, generation, limit_s=3.0):
     """members: [(m, subs)]; prev: {m: [(topic:int, [p...])]} or None. Returns canonical output."""
-    import signal
-    from checks.assign_common import _alarm
+    from checks.assign_common import with_cpu_limit
     S = A["sticky"]
     TP = A["sticky_mod"].TopicPartition
     mm = {}
@@ -42,13 +41,7 @@ def _sticky_round(A, parts, members, prev, generation, limit_s=3.0):
         else:
             md = S._metadata(topics, None)
         mm[mname(m)] = md
-    old = signal.signal(signal.SIGALRM, _alarm)
-    signal.setitimer(signal.ITIMER_REAL, limit_s)
-    try:
-        res = S.assign(StubCluster(parts), mm)
-    finally:
-        signal.setitimer(signal.ITIMER_REAL, 0)
-        signal.signal(signal.SIGALRM, old)
+    res = with_cpu_limit(lambda: S.assign(StubCluster(parts), mm), limit_s)
     return canon(res, members)
 
 
